@@ -395,7 +395,8 @@ func (m *Manager) ApplyBatch(entries []*wal.Entry) error {
 		// Apply each entry to the MemTable
 		for i, entry := range entries {
 			verifhook.At2("sm.batch.entry", startSeqNum, uint64(i))
-			seqNum := startSeqNum + uint64(i)
+			// All entries of a batch share the sequence number the WAL gave the batch
+			seqNum := startSeqNum
 
 			switch entry.Type {
 			case wal.OpTypePut:
